@@ -998,7 +998,7 @@ func (g *c03gen) spell(c, r int) string {
 	case 0:
 		return strings.ToLower(n)
 	case 1:
-		return mixCase(n)
+		return c03mixCase(n)
 	}
 	return n
 }
@@ -1493,4 +1493,14 @@ func runC03(r *Run, rng *Rng, replay string) {
 		r.Sample(s)
 	}
 	r.Notes = append(r.Notes, fmt.Sprintf("%d generated transcripts x %d ops (+%d witness transcripts, malformed stream); far transcripts (XFD / row 1048576) are short and observed sparsely", nT, nOps, len(c03witnesses)))
+}
+
+func c03mixCase(s string) string {
+	b := []byte(s)
+	for i := range b {
+		if i%2 == 1 && b[i] >= 'A' && b[i] <= 'Z' {
+			b[i] |= 0x20
+		}
+	}
+	return string(b)
 }
